@@ -267,6 +267,8 @@ void mon_c08(CaseCtx &c, Rng &rng){
             for(auto &l : s.limits){ l = rng.range(-1, std::max(1, std::min(h.cfg.depth + 1, 5))); if (rng.coin(0.15)) l = 0; }
             if (s.kind == Step::aniso && (s.type == type_hyperbolic || s.type == type_iphyperbolic || s.type == type_qphyperbolic)) s.type = type_iptotal;
         }
+        if (s.kind == Step::aniso && is_curved(s.type) && !s.limits.empty() && rng.coin(0.6))
+            s.limits[(size_t) rng.range(0, d - 1)] = -1; // curved (possibly non-lower) selections with an unlimited direction
         if (s.kind == Step::begin_c){ std::vector<double> nd = h.g.getNeededPoints(); offered.insert(offered.end(), nd.begin(), nd.end()); } // they become the initial candidates
         if (!s.limits.empty()){
             // New limits never fall below the levels that are already present (loaded, needed or previously offered candidates): tightening
